@@ -574,6 +574,134 @@ func c12(r *core.Report) {
 		}
 	}
 
+	// ---- C12-CONN-TRACKED: Close can only shut down what the connection table holds. A connection the swarm
+	// dialed is therefore, on every path out of getConn, either in the table or closed; and a closing connection
+	// takes out only its own table entry (a connection that lost the race for an entry shares the winner's key).
+	r.Rule("C12-CONN-TRACKED", "sshswarm: a dialed connection is registered or closed on every path, and deleteConn removes only the closing connection's own entry", 2)
+	{
+		getConn := needFn(r, "s/sshswarm", "Swarm.getConn")
+		newClient := needFn(r, "s/sshswarm", "newClient")
+		connClose := needFn(r, "s/sshswarm", "Conn.Close")
+		delConn := needFn(r, "s/sshswarm", "Swarm.deleteConn")
+		connsF := needField(r, "s/sshswarm", "Swarm", "conns")
+		if getConn != nil && newClient != nil && connClose != nil {
+			r.Analysed(getConn)
+			for _, ci := range core.CallsToFn(getConn, newClient) {
+				call, ok := ci.(*ssa.Call)
+				if !ok {
+					continue
+				}
+				isConn := func(v ssa.Value) bool {
+					return core.DerivesFromDirect(v, func(x ssa.Value) bool {
+						c2, idx, isRes := core.CallResult(x)
+						return isRes && c2 == call && idx == 0
+					})
+				}
+				settled := func(in ssa.Instruction) bool {
+					switch x := in.(type) {
+					case *ssa.MapUpdate:
+						f, _ := core.FieldRead(x.Map)
+						return core.SameField(f, connsF) && isConn(x.Value)
+					case ssa.CallInstruction:
+						return core.IsCallToFn(x.Common(), connClose) && len(x.Common().Args) > 0 && isConn(x.Common().Args[0])
+					}
+					return false
+				}
+				// on the edge where the dial succeeded (err == nil): every return passes a registration or a Close
+				errNonNil := core.CutWhere(func(cond ssa.Value) int {
+					x, isEq, ok := core.NilCheck(cond)
+					if !ok {
+						return 0
+					}
+					c2, _, isRes := core.CallResult(x)
+					if !isRes || c2 != call || !core.IsErrorType(x.Type()) {
+						return 0
+					}
+					if isEq {
+						return -1
+					}
+					return 1
+				})
+				// branch conditions tested more than once (`if !exists {register}; unlock; if exists {close}`)
+				// are decided once per path: enumerate the truth value of each such condition
+				condUses := map[ssa.Value]int{}
+				for _, blk := range getConn.Blocks {
+					if iff, isIf := blk.Instrs[len(blk.Instrs)-1].(*ssa.If); isIf {
+						c0, _ := core.StripNot(iff.Cond)
+						condUses[c0]++
+					}
+				}
+				var repeated []ssa.Value
+				for c0, k := range condUses {
+					if k > 1 {
+						repeated = append(repeated, c0)
+					}
+				}
+				bad := ""
+				for mask := 0; mask < 1<<uint(len(repeated)) && len(repeated) <= 4; mask++ {
+					assume := core.CutWhere(func(cond ssa.Value) int {
+						for i, c0 := range repeated {
+							if cond == c0 {
+								if mask&(1<<uint(i)) != 0 {
+									return -1 // assumed true: the false edge is infeasible
+								}
+								return 1
+							}
+						}
+						return 0
+					})
+					both := func(b *ssa.BasicBlock, i int) bool { return errNonNil(b, i) || assume(b, i) }
+					reached := core.Reach(getConn, call, both, settled)
+					for _, ret := range core.Returns(getConn) {
+						if reached[ret] {
+							bad = p.Pos(ret.Pos())
+						}
+					}
+				}
+				r.Check(bad == "", "C12-CONN-TRACKED", core.FnName(getConn)+" dialed connection", p.Pos(call.Pos()),
+					"every return after a successful dial is preceded by the connection's registration or its Close",
+					"getConn can return (at "+bad+") with the connection it dialed neither in the table nor closed: Swarm.Close never sees it, its TCP connection and ssh goroutines outlive the swarm")
+			}
+		}
+		if delConn != nil {
+			r.Analysed(delConn)
+			own := core.CutWhere(func(cond ssa.Value) int {
+				b, ok := cond.(*ssa.BinOp)
+				if !ok || (b.Op != token.EQL && b.Op != token.NEQ) {
+					return 0
+				}
+				isParam := func(v ssa.Value) bool { return core.Through(v) == ssa.Value(delConn.Params[1]) }
+				isEntry := func(v ssa.Value) bool {
+					return core.DerivesFromDirect(v, func(x ssa.Value) bool {
+						lk, isL := x.(*ssa.Lookup)
+						if !isL {
+							return false
+						}
+						f, _ := core.FieldRead(lk.X)
+						return core.SameField(f, connsF)
+					})
+				}
+				if !(isParam(b.X) && isEntry(b.Y) || isParam(b.Y) && isEntry(b.X)) {
+					return 0
+				}
+				if b.Op == token.EQL {
+					return 1
+				}
+				return -1
+			})
+			n := 0
+			for _, ci := range core.Calls(delConn, func(ci ssa.CallInstruction) bool { return core.IsBuiltin(ci.Common(), "delete") }) {
+				n++
+				r.Check(core.GuardEdges(delConn, own) > 0 && core.GuardedFromEntry(delConn, ci.(ssa.Instruction), own), "C12-CONN-TRACKED", core.FnName(delConn)+" removes its own entry", p.Pos(ci.Pos()),
+					"the entry is deleted only where it is the closing connection itself",
+					"deleteConn deletes whatever connection is stored under the key: when a connection that lost the dial race is closed, the table forgets the live connection that won, and Swarm.Close no longer shuts it down")
+			}
+			if n == 0 {
+				r.Fail("C12-CONN-TRACKED: no delete found in deleteConn")
+			}
+		}
+	}
+
 	// ---- C12-NO-RETRY: a loop around Receive/ServeAsk leaves the loop when the call fails.
 	// The error a closed swarm reports is not uniform across the module (net.ErrClosed, the
 	// hub's close reason, context.Canceled from fragswarm's workers), so a loop that calls
